@@ -215,6 +215,14 @@ class Normaliser(ast.NodeTransformer):
             return ast.Constant(value=None)
         if parts and len(parts) == 2 and parts[0] in ('np', 'numpy', 'torch') and parts[1] in ('float32', 'float64', 'complex64', 'complex128', 'int64', 'int32'):
             return ast.Name(id='DT.' + parts[1], ctx=ast.Load())
+        # conjugation commutes with a transpose: X.conj().T == X.T.conj(); X.mH == X.mT.conj()
+        if node.attr in ('T', 'mT') and isinstance(node.value, ast.Call) and isinstance(node.value.func, ast.Attribute) and node.value.func.attr in ('conj', 'conjugate') \
+                and not node.value.args:
+            inner = self.visit_Attribute(ast.Attribute(value=node.value.func.value, attr=node.attr, ctx=ast.Load()))
+            return ast.Call(func=ast.Attribute(value=inner, attr='conj', ctx=ast.Load()), args=[], keywords=[])
+        if node.attr in ('mH', 'H'):
+            inner = ast.Call(func=ast.Attribute(value=node.value, attr='transpose', ctx=ast.Load()), args=[ast.Constant(value='swap_last_two')], keywords=[])
+            return ast.Call(func=ast.Attribute(value=inner, attr='conj', ctx=ast.Load()), args=[], keywords=[])
         if node.attr == 'mT':
             return ast.Call(func=ast.Attribute(value=node.value, attr='transpose', ctx=ast.Load()),
                             args=[ast.Constant(value='swap_last_two')], keywords=[])
